@@ -127,13 +127,21 @@ class Harness:
                     w.event(op="call_begin", c=c, n=call["n"], chunk=call["chunk"], ord=1 if call["ordered"] else 0)
                     meth = pool.imap if call["ordered"] else pool.imap_unordered
                     got = 0
-                    for y in meth(data_of(c, call), call["chunk"]):
+                    gen_obj = meth(data_of(c, call), call["chunk"])
+                    for y in gen_obj:
                         if y == NONE_MARK and call.get("nones") and call["ordered"] and got % 2 == 1:
                             cc, ii = c, got         # the result of a None element: identified by its position (ordered calls)
                         else:
                             cc, ii = decode(y)
                         got += 1
                         w.event(op="yield", c=cc, i=ii)
+                        if call.get("abandon_after") == got:
+                            break
+                    if call.get("abandon_after") is not None and got == call["abandon_after"] and got < call["n"]:
+                        # the consumer stops early: the generator is closed (what `break` + garbage collection do)
+                        gen_obj.close()
+                        w.event(op="abandon", c=c, got=got)
+                        continue
                     w.event(op="call_end")
                     if scen.get("uar") == "between":
                         pool.until_all_ready()
@@ -202,7 +210,7 @@ def to_trace(w):
             phase, calls, got = "call", calls + 1, 0
         elif op == "yield":
             got += 1
-        elif op == "call_end":
+        elif op in ("call_end", "abandon"):
             phase = "idle"
         elif op == "hang":
             phase = "hung"
